@@ -10,6 +10,7 @@ CONSTANTS
   SWSets <- SW_a
   FixGC = TRUE
   FixSnapshot = FALSE
+  FixLost = TRUE
   MaxStopFails = 0
   FixStopped = TRUE
 VIEW view
